@@ -108,6 +108,12 @@ def rule_transition(ctx):
         o["rule"] = "TRANS"
         o["key"] = "TRANS:" + o["key"].split(":", 1)[1]
         ctx.obls.append(o)
+    # `hp -> tp` speaks about the h- and the t-copy of p only if here() / there() rename every atom, whatever its name: the prefix rules of C05
+    from . import c05
+    sub = type(ctx)(ctx.prop, ctx.tier, ctx.facts)
+    c05.rule_apply(sub)
+    c05.rule_prefix(sub)
+    ctx.obls.extend(sub.obls)
 
 
 RULES = [rule_pre1, rule_pre2, rule_chain, rule_transition]
